@@ -87,6 +87,18 @@ func TestC01(t *testing.T) {
 			stopAt = time.Unix(1700000000+int64(cr.Intn(1000000)), int64(cr.Intn(1000000000)))
 			w.B.StopTimeAt(stopAt)
 		}
+		// an event type may be known to the Broker before its first pipeline (threshold 0 asks for nothing)
+		if cr.Intn(3) == 0 {
+			for _, ty := range a.Types {
+				switch cr.Intn(4) {
+				case 0:
+					w.B.SetSuccessThreshold(eventlogger.EventType(ty), 0)
+				case 1:
+					w.B.SetSuccessThresholdSinks(eventlogger.EventType(ty), 0)
+				}
+			}
+			run.Add("configurations_with_thresholds_set_first", 1)
+		}
 		ops, mis := buildConfig(w, a, style, cr, cr.Range(3, 14))
 		run.Progress("C01 cfg=%d ops=%v", c, opsString(ops))
 		if mis != "" {
